@@ -1,24 +1,743 @@
-//! C10 — not implemented yet (stub so that the registry compiles).
+//! C10 — switch and fork conditions evaluate exactly as written in the configuration.
+//!
+//! Oracle: a recursive evaluator over the generator's own expression tree (c10_model.rs), written
+//! from the configuration guide. Observation point 1 (direct): the configuration text is parsed by
+//! the real parser, the produced `Action::Switch` is fetched from the layout and the public
+//! `Switch::actions` iterator is called with arbitrary assignments. Observation point 2
+//! (end-to-end): a real `Kanata` is driven into a state through `Sim` and the witness keys that
+//! come out at the OS are read (c10_e2e.rs).
 
+#[path = "c10_model.rs"]
+mod model;
+#[path = "c10_e2e.rs"]
+mod e2e;
+
+use crate::core::rng::Rng;
 use crate::core::{CaseOut, Check, Ctx};
+use kanata_keyberon::action::{Action, BreakOrFallthrough, Switch};
+use kanata_keyberon::key_code::KeyCode;
+use kanata_keyberon::layout::HistoricalEvent;
+use kanata_parser::keys::OsCode;
+use model::*;
+use serde_json::{json, Value};
 
 pub struct C10Check;
 pub static C10: C10Check = C10Check;
+
+/// witness keys (never used as state keys)
+pub(crate) const WITNESS: &[&str] = &[
+    "f13", "f14", "f15", "f16", "f17", "f18", "f19", "f20", "f21", "f22", "f23", "f24", "kp0", "kp1", "kp2", "kp3", "kp4", "kp5",
+    "kp6", "kp7", "kp8", "kp9", "f1", "f2", "f3", "f4", "f5", "f6", "f7", "f8", "f9", "f10", "f11", "f12",
+];
+
+fn osc_of(name: &str) -> u16 {
+    crate::core::sim::osc(name)
+}
+
+/// universe of the direct observation point
+fn direct_universe() -> U {
+    let mut keys: Vec<(String, u16)> =
+        ["a", "b", "c", "d", "1", "lsft", "rctl", "spc", "nop3", "esc", "break", "ralt"].iter().map(|n| (n.to_string(), osc_of(n))).collect();
+    // names defined with deflocalkeys-linux: high codes next to the opcode space boundaries
+    keys.push(("k700".into(), 700));
+    keys.push(("k744".into(), 744));
+    keys.push(("k512".into(), 512));
+    U {
+        keys,
+        vkeys: (0..6).map(|i| format!("vk{i}")).collect(),
+        layers: (0..4).map(|i| format!("l{i}")).collect(),
+    }
+}
+
+const DIRECT_CELLS: &[&str] = &["q", "w", "e", "r", "t"];
+
+/// config text with one switch per cell of DIRECT_CELLS (as many as given)
+fn direct_config(u: &U, switches: &[Vec<(Vec<E>, bool)>]) -> String {
+    let mut s = String::new();
+    s.push_str("(deflocalkeys-linux k700 700 k744 744 k512 512)\n(defcfg process-unmapped-keys yes)\n(defvirtualkeys");
+    for v in &u.vkeys {
+        s.push_str(&format!(" {v} XX"));
+    }
+    s.push_str(")\n(defsrc");
+    for c in DIRECT_CELLS.iter().take(switches.len()) {
+        s.push(' ');
+        s.push_str(c);
+    }
+    s.push_str(")\n(deflayer l0");
+    for i in 0..switches.len() {
+        s.push_str(&format!(" @sw{i}"));
+    }
+    s.push_str(")\n");
+    for l in u.layers.iter().skip(1) {
+        s.push_str(&format!("(deflayer {l}"));
+        for _ in 0..switches.len() {
+            s.push_str(" _");
+        }
+        s.push_str(")\n");
+    }
+    s.push_str("(defalias\n");
+    for (i, sw) in switches.iter().enumerate() {
+        s.push_str(&format!(" sw{i} (switch\n"));
+        for (ci, (items, brk)) in sw.iter().enumerate() {
+            s.push_str("  ");
+            s.push_str(&render_top(items, u));
+            s.push(' ');
+            s.push_str(WITNESS[ci % WITNESS.len()]);
+            s.push_str(if *brk { " break\n" } else { " fallthrough\n" });
+        }
+        s.push_str(" )\n");
+    }
+    s.push_str(")\n");
+    s
+}
+
+fn kc(code: u16) -> Option<KeyCode> {
+    OsCode::from_u16(code).map(KeyCode::from)
+}
+
+/// real evaluation: addresses of the actions that `Switch::actions` yields
+fn real_fire<'a, T>(sw: &Switch<'a, T>, st: &St) -> Vec<*const Action<'a, T>> {
+    let ak: Vec<KeyCode> = st.active.iter().filter_map(|c| kc(*c)).collect();
+    let hk: Vec<HistoricalEvent<KeyCode>> =
+        st.hk.iter().filter_map(|(c, a)| kc(*c).map(|k| HistoricalEvent { event: k, ticks_since_occurrence: *a })).collect();
+    let hi: Vec<HistoricalEvent<(u8, u16)>> = st.hi.iter().map(|(c, a)| HistoricalEvent { event: *c, ticks_since_occurrence: *a }).collect();
+    sw.actions(ak.iter().copied(), st.coords.iter().copied(), hk.iter().copied(), hi.iter().copied(), st.layers.iter().copied(), st.base)
+        .map(|a| a as *const _)
+        .collect()
+}
+
+/// map yielded action addresses to case indices (cases are yielded in increasing index order)
+fn to_indices<'a, T>(sw: &Switch<'a, T>, fired: &[*const Action<'a, T>]) -> Option<Vec<usize>> {
+    let mut out = vec![];
+    let mut from = 0usize;
+    for p in fired {
+        let mut found = None;
+        for j in from..sw.cases.len() {
+            if std::ptr::eq(sw.cases[j].1 as *const _, *p) {
+                found = Some(j);
+                break;
+            }
+        }
+        let j = found?;
+        out.push(j);
+        from = j + 1;
+    }
+    Some(out)
+}
+
+/// truth value of a single case, evaluated in isolation through a one-case `Switch`
+fn real_case_truth<'a, T>(sw: &Switch<'a, T>, i: usize, st: &St) -> bool {
+    let one = Switch { cases: &sw.cases[i..i + 1] };
+    !real_fire(&one, st).is_empty()
+}
+
+struct Parsed {
+    cfg: kanata_parser::cfg::Cfg,
+    vk_idx: Vec<u16>,
+}
+
+fn parse_direct(text: &str, u: &U) -> Result<Parsed, String> {
+    let cfg = kanata_parser::cfg::new_from_str(text, Default::default()).map_err(|e| format!("{e:?}"))?;
+    let mut vk_idx = vec![];
+    for v in &u.vkeys {
+        match cfg.fake_keys.get(v) {
+            Some(i) => vk_idx.push(*i as u16),
+            None => return Err(format!("virtual key {v} missing from Cfg.fake_keys")),
+        }
+    }
+    Ok(Parsed { cfg, vk_idx })
+}
+
+fn st_json(st: &St) -> Value {
+    json!({
+        "active_key_codes": st.active, "active_coords": st.coords,
+        "key_history(code,age) most recent first": st.hk, "input_history(coord,age)": st.hi,
+        "layers(first=active)": st.layers, "base_layer": st.base,
+    })
+}
+
+/// does the real code still disagree with the model on this single case?
+fn single_mismatch(u: &U, items: &[E], st: &St) -> bool {
+    let text = direct_config(u, &[vec![(items.to_vec(), true)]]);
+    let Ok(p) = parse_direct(&text, u) else { return false };
+    let l = p.cfg.layout.b();
+    let Action::Switch(sw) = &l.layers[0][0][osc_of(DIRECT_CELLS[0]) as usize] else { return false };
+    let real = !real_fire(sw, st).is_empty();
+    real != eval_top(items, u, &p.vk_idx, st)
+}
+
+fn shrink_candidates(e: &E) -> Vec<E> {
+    let mut out = vec![];
+    if let E::Or(v) | E::And(v) | E::Not(v) = e {
+        // replace by an operand
+        for x in v {
+            out.push(x.clone());
+        }
+        let mk = |nv: Vec<E>| match e {
+            E::Or(_) => E::Or(nv),
+            E::And(_) => E::And(nv),
+            _ => E::Not(nv),
+        };
+        // drop an operand
+        if v.len() > 1 {
+            for i in 0..v.len() {
+                let mut nv = v.clone();
+                nv.remove(i);
+                out.push(mk(nv));
+            }
+        }
+        // shrink inside an operand
+        for i in 0..v.len() {
+            for c in shrink_candidates(&v[i]) {
+                let mut nv = v.clone();
+                nv[i] = c;
+                out.push(mk(nv));
+            }
+        }
+    }
+    out
+}
+
+fn shrink(u: &U, items: &[E], st: &St) -> Vec<E> {
+    let mut cur = items.to_vec();
+    let mut budget = 300;
+    'outer: loop {
+        let mut cands: Vec<Vec<E>> = vec![];
+        if cur.len() > 1 {
+            for i in 0..cur.len() {
+                let mut n = cur.clone();
+                n.remove(i);
+                cands.push(n);
+            }
+        }
+        for i in 0..cur.len() {
+            for c in shrink_candidates(&cur[i]) {
+                let mut n = cur.clone();
+                n[i] = c;
+                cands.push(n);
+            }
+        }
+        cands.sort_by_key(|c| c.iter().map(size).sum::<usize>());
+        for c in cands {
+            if budget == 0 {
+                break 'outer;
+            }
+            budget -= 1;
+            if single_mismatch(u, &c, st) {
+                cur = c;
+                continue 'outer;
+            }
+        }
+        break;
+    }
+    cur
+}
+
+/// Judge one parsed configuration: every switch x every state.
+fn judge_direct(out: &mut CaseOut, u: &U, text: &str, switches: &[Vec<(Vec<E>, bool)>], states: &[Vec<St>], part: &str) {
+    let p = match parse_direct(text, u) {
+        Ok(p) => p,
+        Err(e) => {
+            out.violate(
+                "C10:rejected-valid-switch",
+                format!("the parser rejected a switch that is valid by the guide: {}", e.lines().next().unwrap_or("")),
+                json!({"config": text, "history": "(direct evaluation, no history)", "observed": e, "expected": "accepted"}),
+            );
+            return;
+        }
+    };
+    out.inc("configs_parsed");
+    let l = p.cfg.layout.b();
+    for (si, cases) in switches.iter().enumerate() {
+        let coord = osc_of(DIRECT_CELLS[si]) as usize;
+        let Action::Switch(sw) = &l.layers[0][0][coord] else {
+            out.violate(
+                "C10:no-switch-action",
+                "the layer cell written as a switch does not hold Action::Switch",
+                json!({"config": text, "history": "", "observed": format!("{:?}", l.layers[0][0][coord]), "expected": "Action::Switch"}),
+            );
+            continue;
+        };
+        if sw.cases.len() != cases.len() {
+            out.violate(
+                "C10:case-count",
+                "number of parsed cases differs from the number written",
+                json!({"config": text, "history": "", "observed": sw.cases.len(), "expected": cases.len()}),
+            );
+            continue;
+        }
+        for (ci, c) in cases.iter().enumerate() {
+            let want = if c.1 { BreakOrFallthrough::Break } else { BreakOrFallthrough::Fallthrough };
+            if sw.cases[ci].2 != want {
+                out.violate(
+                    "C10:break-fallthrough-flag",
+                    "break/fallthrough of a parsed case differs from what was written",
+                    json!({"config": text, "history": "", "observed": format!("{:?}", sw.cases[ci].2), "expected": format!("{want:?}"), "case": ci}),
+                );
+            }
+        }
+        out.count("switches", 1);
+        out.count("cases", cases.len() as u64);
+        let mut reported = false;
+        for st in &states[si] {
+            let expected = firing(cases, u, &p.vk_idx, st);
+            let fired = real_fire(sw, st);
+            let observed = to_indices(sw, &fired);
+            out.count("evaluations_sequence", 1);
+            out.count("evaluations_case", cases.len() as u64);
+            out.count(&format!("{part}_evaluations"), cases.len() as u64);
+            out.max("firing_cases_in_one_evaluation", expected.len() as u64);
+            if expected.len() > 8 {
+                out.inc("direct_more_than_8_firing");
+            }
+            if observed.as_ref() == Some(&expected) {
+                continue;
+            }
+            if reported {
+                out.inc("further_mismatches_not_reported");
+                continue;
+            }
+            reported = true;
+            // locate a single case whose truth value differs
+            let mut bad_case = None;
+            for ci in 0..cases.len() {
+                let m = eval_top(&cases[ci].0, u, &p.vk_idx, st);
+                if real_case_truth(sw, ci, st) != m {
+                    bad_case = Some((ci, m));
+                    break;
+                }
+            }
+            match bad_case {
+                Some((ci, m)) => {
+                    let small = shrink(u, &cases[ci].0, st);
+                    let small_still = single_mismatch(u, &small, st);
+                    let shown = if small_still { small.clone() } else { cases[ci].0.clone() };
+                    out.violate(
+                        format!("C10:direct:truth-mismatch:{}", skeleton_top(&shown)),
+                        format!("switch case {} evaluates to {} but is {} as written", render_top(&shown, u), !m, m),
+                        json!({
+                            "config": direct_config(u, &[vec![(shown.clone(), true)]]),
+                            "history": "(direct call of Switch::actions with the state below)",
+                            "state": st_json(st), "observed": !m, "expected": m,
+                            "original_case": render_top(&cases[ci].0, u), "original_config": text,
+                            "key_codes": u.keys, "virtual_key_indices": p.vk_idx,
+                        }),
+                    );
+                }
+                None => {
+                    out.violate(
+                        "C10:direct:sequence",
+                        "every case evaluates as written in isolation, but the sequence of firing cases differs (break/fallthrough)",
+                        json!({
+                            "config": text, "history": "(direct call of Switch::actions with the state below)", "switch_index": si,
+                            "state": st_json(st), "observed": observed, "expected": expected,
+                            "break_flags": cases.iter().map(|c| c.1).collect::<Vec<_>>(),
+                        }),
+                    );
+                }
+            }
+        }
+    }
+}
+
+// ------------------------------------------------------------------ exhaustive families
+
+const CHUNK: u64 = 400;
+const SWITCHES_PER_CASE: u64 = 5;
+
+#[derive(Clone, Copy, Debug, PartialEq)]
+enum Fam {
+    /// leaves a, b, c (one-word opcodes)
+    A,
+    /// leaves (input real a), (input-history virtual vk1 2), (base-layer l1) (two-word opcodes)
+    B,
+    /// leaves a, (layer l1), (key-timing 2 gt 2304)
+    C,
+}
+
+fn fam_max_size(f: Fam, ctx: &Ctx) -> usize {
+    match f {
+        Fam::A => ctx.tier.sel(7, 8),
+        Fam::B => ctx.tier.sel(6, 7),
+        Fam::C => ctx.tier.sel(6, 7),
+    }
+}
+
+fn fam_leaves(f: Fam) -> [E; 3] {
+    match f {
+        Fam::A => [E::Key(0), E::Key(1), E::Key(2)],
+        Fam::B => [E::Input(Inp::Real(0)), E::InputHist(Inp::Virt(1), 2), E::BaseLayer(1)],
+        Fam::C => [E::Key(0), E::Layer(1), E::Timing(2, false, 2304)],
+    }
+}
+
+/// the 8 assignments of a family: bit i = leaf i true
+fn fam_state(f: Fam, bits: u8, u: &U, vk_idx: &[u16]) -> St {
+    let b = |i: u8| bits & (1 << i) != 0;
+    let mut st = St { layers: vec![0], ..Default::default() };
+    match f {
+        Fam::A => {
+            for i in 0..3 {
+                if b(i) {
+                    st.active.push(u.keys[i as usize].1);
+                }
+            }
+            // noise that must not matter
+            st.active.push(u.keys[5].1);
+            st.coords.push((0, u.keys[0].1));
+        }
+        Fam::B => {
+            if b(0) {
+                st.coords.push((0, u.keys[0].1));
+            }
+            st.coords.push((1, vk_idx[0]));
+            st.hi.push(((0, u.keys[0].1), 3));
+            st.hi.push((if b(1) { (1, vk_idx[1]) } else { (0, vk_idx[1]) }, 9));
+            st.base = if b(2) { 1 } else { 2 };
+            st.active.push(u.keys[0].1);
+        }
+        Fam::C => {
+            if b(0) {
+                st.active.push(u.keys[0].1);
+            }
+            st.layers = if b(1) { vec![1, 0] } else { vec![2, 1, 0] };
+            st.hk.push((u.keys[1].1, 5));
+            // q(2304) = 2303: "gt" is true from age 2304 on
+            st.hk.push((u.keys[2].1, if b(2) { 2304 } else { 2303 }));
+        }
+    }
+    st
+}
+
+struct ExhLayout {
+    /// (family, size, number of chunks)
+    blocks: Vec<(Fam, usize, u64)>,
+    cases: u64,
+}
+
+fn exh_layout(ctx: &Ctx) -> ExhLayout {
+    let c = counts(8);
+    let mut blocks = vec![];
+    let mut chunks = 0u64;
+    for f in [Fam::A, Fam::B, Fam::C] {
+        for m in 1..=fam_max_size(f, ctx) {
+            let n = (c.f[m] + CHUNK - 1) / CHUNK;
+            blocks.push((f, m, n));
+            chunks += n;
+        }
+    }
+    ExhLayout { blocks, cases: (chunks + SWITCHES_PER_CASE - 1) / SWITCHES_PER_CASE }
+}
+
+/// chunk number -> (family, size, first rank)
+fn chunk_at(lay: &ExhLayout, mut ch: u64) -> Option<(Fam, usize, u64)> {
+    for (f, m, n) in &lay.blocks {
+        if ch < *n {
+            return Some((*f, *m, ch * CHUNK));
+        }
+        ch -= n;
+    }
+    None
+}
+
+fn run_exhaustive(out: &mut CaseOut, ctx: &Ctx, idx: u64) {
+    let lay = exh_layout(ctx);
+    let c = counts(8);
+    let u = direct_universe();
+    // all chunks of one case must belong to one family (states are per family): group by family
+    let mut groups: Vec<(Fam, Vec<Vec<(Vec<E>, bool)>>)> = vec![];
+    for k in 0..SWITCHES_PER_CASE {
+        let Some((f, m, r0)) = chunk_at(&lay, idx * SWITCHES_PER_CASE + k) else { break };
+        let leaves = fam_leaves(f);
+        let mut cases = vec![];
+        let hi = (r0 + CHUNK).min(c.f[m]);
+        for r in r0..hi {
+            let forest = unrank_forest(m, r, &c);
+            let items: Vec<E> = forest.iter().map(|s| sh_to_e(s, &leaves)).collect();
+            for it in &items {
+                out.max("exhaustive_depth", depth(it) as u64);
+            }
+            cases.push((items, false));
+        }
+        out.count("exhaustive_shapes", cases.len() as u64);
+        out.count(&format!("exhaustive_shapes_family_{f:?}"), cases.len() as u64);
+        out.tag(format!("exh:{f:?}:{m}:{r0}"));
+        match groups.last_mut() {
+            Some((gf, v)) if *gf == f => v.push(cases),
+            _ => groups.push((f, vec![cases])),
+        }
+    }
+    for (f, switches) in groups {
+        let text = direct_config(&u, &switches);
+        // the virtual key indices are needed to build the states: definition order, checked by parse_direct
+        let vk_idx: Vec<u16> = match parse_direct(&text, &u) {
+            Ok(p) => p.vk_idx,
+            Err(_) => (0..u.vkeys.len() as u16).collect(),
+        };
+        let states: Vec<St> = (0..8u8).map(|b| fam_state(f, b, &u, &vk_idx)).collect();
+        let per: Vec<Vec<St>> = switches.iter().map(|_| states.clone()).collect();
+        judge_direct(out, &u, &text, &switches, &per, "exhaustive");
+        if idx == 0 && out.sample.is_none() {
+            out.sample = Some(json!({"part": "exhaustive", "family": format!("{f:?}"), "first_cases": switches[0].iter().take(6).map(|c| render_top(&c.0, &u)).collect::<Vec<_>>(), "assignments": 8}));
+        }
+    }
+}
+
+/// all case lists of length 1..=5 x break/fallthrough patterns x truth patterns
+fn run_bf_exhaustive(out: &mut CaseOut) {
+    let u = direct_universe();
+    for len in 1..=5usize {
+        let mut switches = vec![];
+        let mut per = vec![];
+        for bf in 0..(1u32 << len) {
+            let cases: Vec<(Vec<E>, bool)> = (0..len).map(|i| (vec![E::Key(i)], bf & (1 << i) != 0)).collect();
+            let states: Vec<St> = (0..(1u32 << len))
+                .map(|t| St { active: (0..len).filter(|i| t & (1 << i) != 0).map(|i| u.keys[i].1).collect(), layers: vec![0], ..Default::default() })
+                .collect();
+            switches.push(cases);
+            per.push(states);
+            if switches.len() == DIRECT_CELLS.len() || bf + 1 == (1u32 << len) {
+                let text = direct_config(&u, &switches);
+                out.count("bf_patterns", switches.len() as u64);
+                judge_direct(out, &u, &text, &switches, &per, "bf");
+                switches.clear();
+                per.clear();
+            }
+        }
+    }
+    out.tag("bf-exhaustive");
+}
+
+// ------------------------------------------------------------------ random direct part
+
+/// a random code the OS layer knows
+fn any_code(rng: &mut Rng) -> u16 {
+    loop {
+        let c = rng.below(749) as u16;
+        if OsCode::from_u16(c).is_some() {
+            return c;
+        }
+    }
+}
+
+fn random_state(rng: &mut Rng, u: &U, vk_idx: &[u16], ages: &[u16]) -> St {
+    let mut st = St::default();
+    let dens = rng.range(0, 4);
+    for k in &u.keys {
+        if rng.below(4) < dens {
+            st.active.push(k.1);
+        }
+    }
+    if rng.chance(1, 4) {
+        st.active.push(any_code(rng));
+    }
+    rng.shuffle(&mut st.active);
+    let dens = rng.range(0, 4);
+    for k in &u.keys {
+        if rng.below(4) < dens {
+            st.coords.push((0, k.1));
+        }
+    }
+    for v in vk_idx {
+        if rng.below(4) < dens {
+            st.coords.push((1, *v));
+        }
+    }
+    if rng.chance(1, 4) {
+        // a real coordinate numerically equal to a virtual index and vice versa
+        st.coords.push((0, vk_idx[rng.usize(vk_idx.len())]));
+        st.coords.push((1, u.keys[rng.usize(u.keys.len())].1));
+    }
+    rng.shuffle(&mut st.coords);
+    let n = if rng.chance(1, 3) { 8 } else { rng.usize(9) };
+    for _ in 0..n {
+        let code = if rng.chance(1, 10) { any_code(rng) } else { u.keys[rng.usize(u.keys.len())].1 };
+        let age = if !ages.is_empty() && rng.chance(3, 4) { *rng.pick(ages) } else { rng.below(65536) as u16 };
+        st.hk.push((code, age));
+    }
+    let n = if rng.chance(1, 3) { 8 } else { rng.usize(9) };
+    for _ in 0..n {
+        let c = match rng.usize(10) {
+            0 => (0, any_code(rng)),
+            1..=4 => (1, vk_idx[rng.usize(vk_idx.len())]),
+            _ => (0, u.keys[rng.usize(u.keys.len())].1),
+        };
+        st.hi.push((c, rng.below(5000) as u16));
+    }
+    let nl = u.layers.len() as u64;
+    let n = if rng.chance(1, 20) { 0 } else { rng.range(1, 4) };
+    for _ in 0..n {
+        st.layers.push(rng.below(nl) as u16);
+    }
+    st.base = rng.below(nl) as u16;
+    st
+}
+
+fn random_direct(ctx: &Ctx, r: u64) -> (U, Vec<Vec<(Vec<E>, bool)>>, Rng) {
+    let mut rng = Rng::for_case(ctx.seed, "C10", "direct", r);
+    let u = direct_universe();
+    let style = r % 4; // 0 mixed, 1 deep, 2 two-word heavy, 3 timing heavy
+    let o = GenOpts {
+        max_depth: 8,
+        leaf_w: match style {
+            2 => [1, 1, 1, 6, 6, 6, 6],
+            3 => [2, 2, 10, 1, 1, 1, 1],
+            _ => [6, 3, 3, 3, 3, 2, 2],
+        },
+        timing_pool: EDGE_T.to_vec(),
+        max_arity: if style == 1 { 3 } else { 4 },
+    };
+    let nsw = 3;
+    let mut switches = vec![];
+    for _ in 0..nsw {
+        let ncases = if rng.chance(1, 4) { rng.range(9, 16) } else { rng.range(1, 8) } as usize;
+        let mut cases = vec![];
+        for _ in 0..ncases {
+            let nitems = *rng.pick_weighted(&[(1u32, 0usize), (8, 1), (3, 2), (2, 3), (1, 5)]);
+            let mut items = vec![];
+            for _ in 0..nitems {
+                let mut budget = *rng.pick(&[6i64, 15, 40, 120]);
+                let e = if style == 1 || rng.chance(1, 5) { gen_deep(&mut rng, &u, &o, 1, &mut budget) } else { gen_expr(&mut rng, &u, &o, 1, &mut budget) };
+                items.push(e);
+            }
+            let brk = rng.chance(1, if ncases > 8 { 8 } else { 3 });
+            cases.push((items, brk));
+        }
+        switches.push(cases);
+    }
+    (u, switches, rng)
+}
+
+fn run_random_direct(out: &mut CaseOut, ctx: &Ctx, r: u64) {
+    let (u, switches, mut rng) = random_direct(ctx, r);
+    let text = direct_config(&u, &switches);
+    let vk_idx: Vec<u16> = (0..u.vkeys.len() as u16).collect();
+    let nstates = ctx.tier.sel(48, 96);
+    let mut per = vec![];
+    let mut kinds = [0u64; 10];
+    for cases in &switches {
+        let mut ts = vec![];
+        for c in cases {
+            for it in &c.0 {
+                timings(it, &mut ts);
+                leaf_kinds(it, &mut kinds);
+                out.max("random_depth", depth(it) as u64);
+                out.max("random_size", size(it) as u64);
+                if depth(it) == 8 {
+                    out.inc("random_depth8_expressions");
+                }
+            }
+        }
+        let mut ages = vec![0u16, 1, 65535];
+        for (_, t) in &ts {
+            let qq = q(*t);
+            for d in [-1i32, 0, 1] {
+                let a = qq as i32 + d;
+                if (0..=65535).contains(&a) {
+                    ages.push(a as u16);
+                }
+                let a = *t as i32 + d;
+                if (0..=65535).contains(&a) {
+                    ages.push(a as u16);
+                }
+            }
+            if *t > 255 {
+                out.inc("random_thresholds_in_lossy_range");
+            }
+        }
+        let states: Vec<St> = (0..nstates).map(|_| random_state(&mut rng, &u, &vk_idx, &ages)).collect();
+        per.push(states);
+    }
+    for (i, k) in kinds.iter().enumerate() {
+        out.count(&format!("random_nodes_{}", KIND_NAMES[i]), *k);
+    }
+    let mut present: Vec<&str> = kinds.iter().enumerate().filter(|(_, k)| **k > 0).map(|(i, _)| KIND_NAMES[i]).collect();
+    present.sort();
+    out.tag(format!("rnd:{}:{}", r % 4, present.join(",")));
+    judge_direct(out, &u, &text, &switches, &per, "random");
+    if r % 500 == 1 {
+        out.sample = Some(json!({"part": "random-direct", "config": text, "states_per_switch": nstates}));
+    }
+}
+
+// ------------------------------------------------------------------ the check
+
+fn n_random(ctx: &Ctx) -> u64 {
+    ctx.tier.sel(8_000, 150_000)
+}
+fn n_e2e(ctx: &Ctx) -> u64 {
+    ctx.tier.sel(9_000, 120_000)
+}
 
 impl Check for C10Check {
     fn id(&self) -> &'static str {
         "C10"
     }
-    fn n_cases(&self, _ctx: &Ctx) -> u64 {
-        0
+    fn n_cases(&self, ctx: &Ctx) -> u64 {
+        exh_layout(ctx).cases + 1 + n_random(ctx) + n_e2e(ctx)
     }
-    fn run_case(&self, _ctx: &Ctx, _idx: u64) -> CaseOut {
-        CaseOut::new()
+    fn describe(&self, ctx: &Ctx, idx: u64) -> Value {
+        let ne = exh_layout(ctx).cases;
+        if idx < ne {
+            json!({"part": "exhaustive", "case": idx})
+        } else if idx == ne {
+            json!({"part": "break/fallthrough exhaustive"})
+        } else if idx < ne + 1 + n_random(ctx) {
+            let (u, sw, _) = random_direct(ctx, idx - ne - 1);
+            json!({"part": "random-direct", "config": direct_config(&u, &sw)})
+        } else {
+            e2e::describe(ctx, idx - ne - 1 - n_random(ctx))
+        }
+    }
+    fn run_case(&self, ctx: &Ctx, idx: u64) -> CaseOut {
+        let mut out = CaseOut::new();
+        let ne = exh_layout(ctx).cases;
+        if idx < ne {
+            run_exhaustive(&mut out, ctx, idx);
+        } else if idx == ne {
+            run_bf_exhaustive(&mut out);
+        } else if idx < ne + 1 + n_random(ctx) {
+            run_random_direct(&mut out, ctx, idx - ne - 1);
+        } else {
+            e2e::run(&mut out, ctx, idx - ne - 1 - n_random(ctx));
+        }
+        out
     }
     fn rule(&self) -> String {
-        "not implemented".into()
+        "Direct part: configuration text rendered from the harness's own expression tree is parsed by the real parser; the Action::Switch found in the layout is evaluated through Switch::actions (whole case list, and every case alone through a one-case Switch) and compared with a recursive evaluator. Exhaustive and seed-independent: every list of or/and/not trees (arity >= 1) of total size <= 7 quick / 8 thorough over leaves {a,b,c}, <= 6 / 7 over three two-word leaves {(input real a),(input-history virtual vk1 2),(base-layer l1)}, <= 6 / 7 over {a,(layer l1),(key-timing 2 gt 2304)}, each under all 8 truth assignments; every break/fallthrough pattern x truth pattern of case lists up to length 5. Random: 3 switches per case with 1-16 cases, expressions up to depth 8 and ~120 nodes, all ten item kinds, two-word items at every position, thresholds on every compression edge, 48/96 random states each with history ages placed on q(t)-1, q(t), q(t)+1. End-to-end part: a real Kanata is driven through Sim into a state (held keys, released keys, virtual keys, held and switched layers, gaps placed on threshold edges), the switch or fork key is pressed and the witness keys appearing at the OS are compared with the model (up to 8 firing cases exactly; above 8 only 'no non-firing case performed'). Non-trivial = a case/scenario that was evaluated; distinct = exhaustive chunk, or set of item kinds (random), or scenario class (e2e).".into()
     }
     fn assumptions(&self) -> Vec<String> {
-        vec![]
+        vec![
+            "key-timing 'lt' is inclusive (age <= q(t)) and 'gt' strict (age > q(t)), q = documented lossy rounding anchored at 255+8k and 2303+128k; this is the repository's own unit-test convention".into(),
+            "an operator with zero operands, e.g. (or), is accepted by the parser but outside the statement and is not generated".into(),
+            "end-to-end: events are at least one tick apart, so the age of a key press at evaluation is the difference of arrival times; (input real k) is only asked about keys whose action creates a key state (plain keys, layer-while-held keys, virtual keys), not about layer-switch keys or the switch key itself".into(),
+            "end-to-end with more than 8 firing fallthrough cases (beyond the 8-slot action queue) is only judged for 'no non-firing case is performed'; the lost actions are counted".into(),
+            "virtual key name -> coordinate is taken from Cfg.fake_keys in the direct part and checked by really pressing the virtual keys in the end-to-end part".into(),
+        ]
+    }
+    fn floors(&self, ctx: &Ctx) -> Vec<(&'static str, u64)> {
+        vec![
+            ("exhaustive_shapes", ctx.tier.sel(1_200_000, 12_000_000)),
+            ("exhaustive_evaluations", ctx.tier.sel(9_000_000, 90_000_000)),
+            ("bf_patterns", 62),
+            ("random_evaluations", ctx.tier.sel(1_000_000, 20_000_000)),
+            ("random_depth8_expressions", 100),
+            ("random_nodes_input", 100),
+            ("random_nodes_input-history", 100),
+            ("random_nodes_layer", 100),
+            ("random_nodes_base-layer", 100),
+            ("random_nodes_key-timing", 100),
+            ("random_thresholds_in_lossy_range", 100),
+            ("direct_more_than_8_firing", 10),
+            ("e2e_switch_scenarios", ctx.tier.sel(5_000, 70_000)),
+            ("e2e_fork_scenarios", ctx.tier.sel(2_500, 35_000)),
+            ("e2e_fork_right", 100),
+            ("e2e_fork_left", 100),
+            ("e2e_over8_firing", 5),
+            ("e2e_timing_on_edge", 20),
+        ]
+    }
+    fn exhaustive(&self, _ctx: &Ctx) -> bool {
+        true
     }
 }
